@@ -101,7 +101,17 @@ def encode_cv(pc, log_start, r, lay):
     proto = pc["prototype"]
     cols = [[p.split(",")[i] for p in pc["points"]] for i in range(len(proto))] if pc["points"] else [[] for _ in proto]
     streams = [stream_bytes(rec, col) for rec, col in zip(proto, cols)]
-    packets = packetise(streams, r, lay["packets"])
+    if pc.get("_cuts") is not None:
+        # explicit packetisation: one list of boundaries [0, c1, ..., len] per attribute (C12 grid)
+        cuts = pc["_cuts"]
+        p = len(cuts[0]) - 1
+        packets = []
+        for k in range(p):
+            chunks = [streams[i][cuts[i][k]:cuts[i][k + 1]] for i in range(len(streams))]
+            if sum(len(c) for c in chunks) > 0:
+                packets.append(chunks)
+    else:
+        packets = packetise(streams, r, lay["packets"])
     body = bytearray()
     kinds = []
     index_at = None
